@@ -103,7 +103,8 @@ def parseF (cs : List Char) : Option F :=
     | _ => none
 
 mutual
-/-- parse one value from the token list; `fuel` ≥ number of tokens suffices -/
+/-- parse one value from the token list; every call consumes a token or descends from `parseJ`
+into `parseList`/`parseObj`, so `fuel` ≥ 2·(number of tokens)+2 suffices -/
 def parseJ : Nat → List String → Option (J × List String)
   | 0, _ => none
   | _ + 1, [] => none
@@ -155,13 +156,13 @@ end
 
 /-- parse exactly one value from a token list (nothing may be left over) -/
 def parseToks (toks : List String) : Option J :=
-  match parseJ (toks.length + 1) toks with
+  match parseJ (2 * toks.length + 2) toks with
   | some (v, []) => some v
   | _ => none
 
 /-- parse one value and return the remaining tokens -/
 def parsePrefix (toks : List String) : Option (J × List String) :=
-  parseJ (toks.length + 1) toks
+  parseJ (2 * toks.length + 2) toks
 
 def tokens (line : String) : List String := (line.splitOn " ").filter (· ≠ "")
 
@@ -175,6 +176,7 @@ private def sample : J :=
 -- `String` primitives do not reduce in the kernel, so these are evaluated tests, not proofs
 #guard parse (showJ sample) == some sample
 #guard showJ (.arr [.int 1, .str (lit "ab"), .obj [(lit "k", .bool false)]]) == "[3 i1 s61.62 {1 s6b f"
+#guard parse "[1 [2 d1p0 [2 [0 f" == some (.arr [.arr [.float (.fin 1 0), .arr [.arr [], .bool false]]])
 #guard parse "[1 n n" == none
 #guard parse "s61." == none
 #guard parse "i-5" == some (.int (-5))
